@@ -32,9 +32,10 @@ ORDER_FREE_REDUCERS = {"sorted", "min", "max", "sum", "len", "any", "all", "set"
 COMMUTATIVE_METHODS = {"add", "update", "discard"}
 
 # iterations whose order-insensitivity is established by another rule or by reading; one line of reason each
-CONFIRMED_INSENSITIVE: Dict[Tuple[str, str], str] = {
-    ("modify.reorient.viewpoint.ViewpointReorienter.reorient", "list(remaining_triangles)"): "handed to _get_aligned, which sorts by alignment and takes the best two; ties exist only between the two coplanar triangles of one side and both are taken (outside the write closure)",
-    ("mesh.Mesh._add_vertices", "list(patches)"): "the list is sorted on both sides before use (VertexList.find_duplicated sorts in place, DuplicatedEntry stores sorted(patches)) - checked by C05.SLAVE-ONLY sorted-key",
+CONFIRMED_INSENSITIVE: Dict[str, str] = {
+    # keyed by function: the one set materialisation (list(<set>)) in that function
+    "modify.reorient.viewpoint.ViewpointReorienter.reorient": "handed to _get_aligned, which sorts by alignment and takes the best two; ties exist only between the two coplanar triangles of one side and both are taken (outside the write closure)",
+    "mesh.Mesh._add_vertices": "the list is sorted on both sides before use (VertexList.find_duplicated sorts in place, DuplicatedEntry stores sorted(patches)) - checked by C05.SLAVE-ONLY sorted-key",
 }
 
 
@@ -134,12 +135,13 @@ def set_order(repo: Repo) -> RuleRun:
             t = _set_typed(env, it)
             if t is None:
                 continue
-            key = f"{kind}:{ast.unparse(it)}"
+            # keys must not contain local variable names: the attribute holding the set, or '<local set>'
+            key = f"{kind}:.{it.attr}" if isinstance(it, ast.Attribute) else f"{kind}:<local set>"
             if _elem_is_int(t):
                 n_int += 1
                 r.ok(fn, "set of int: iteration order is a function of the values", key=key)
                 continue
-            confirmed = CONFIRMED_INSENSITIVE.get((fn.qualname, ast.unparse(n) if kind == "call" else ast.unparse(it)))
+            confirmed = CONFIRMED_INSENSITIVE.get(fn.qualname) if kind == "call" else None
             if kind == "comp":
                 par = parent(n)
                 consumed = isinstance(par, ast.Call) and isinstance(par.func, ast.Name) and par.func.id in ORDER_FREE_REDUCERS
@@ -254,11 +256,12 @@ def progress_flag(repo: Repo) -> RuleRun:
     r.require(len(wl) == 1, f"loop condition '{ast.unparse(loop.test)}' not recognised as a worklist test")
     worklist = wl[0]
     # flag reset at the top, 'if not flag: break' at the bottom
-    first = loop.body[0]
+    body_stmts = [st for st in loop.body if not isinstance(st, ast.Pass) and not (isinstance(st, ast.Expr) and isinstance(st.value, ast.Constant))]
+    first = body_stmts[0] if body_stmts else None
     r.require(isinstance(first, ast.Assign) and isinstance(first.targets[0], ast.Name) and isinstance(first.value, ast.Constant) and first.value.value is False, "progress flag is not reset to False at the top of each round")
     flag = first.targets[0].id
     brk = [n for n in loop.body if isinstance(n, ast.If) and ast.unparse(n.test) == f"not {flag}" and any(isinstance(b, ast.Break) for b in n.body)]
-    r.check(len(brk) == 1 and loop.body[-1] is brk[0], fn, "'if not flag: break' ends each round", f"the round does not end with 'if not {flag}: break': a round without progress is repeated for ever", loop, key="no-progress-break")
+    r.check(len(brk) == 1 and body_stmts[-1] is brk[0], fn, "'if not flag: break' ends each round", f"the round does not end with 'if not {flag}: break': a round without progress is repeated for ever", loop, key="no-progress-break")
     # every truthy assignment of the flag
     for n in ast.walk(loop):
         if isinstance(n, ast.Assign) and isinstance(n.targets[0], ast.Name) and n.targets[0].id == flag and n is not first:
